@@ -1389,6 +1389,11 @@ def bin_term(op, a, b):
                 return ('lit', r())
         except Exception:
             pass
+    if op in ('Eq', 'Ne') and a[0] == 'lit' and b[0] == 'lit' and isinstance(a[1], (bytes, str)) and isinstance(b[1], (bytes, str)):
+        # two string / byte-string literals are equal exactly when their bytes are (`as_bytes` is transparent, so a str literal may
+        # meet a byte-string literal: a str is its UTF-8 encoding)
+        x, y = (v.encode('utf-8') if isinstance(v, str) else v for v in (a[1], b[1]))
+        return ('lit', (x == y) == (op == 'Eq'))
     if op in ('BitOr', 'BitAnd', 'Or', 'And'):
         for x, y in ((a, b), (b, a)):
             if x[0] == 'lit' and isinstance(x[1], bool):
@@ -1611,6 +1616,28 @@ def builtin_summary(I, cal, args, node, st):
                     outs.append(Out('val', ('ctor', good, (o.val,)), o.st))
                 else:
                     outs.append(o)
+        return outs
+    if I.combinators and is_opt and name == 'filter' and len(args) == 2 and args[1][0] in ('closure', 'fn'):
+        # Option::filter(pred): None stays None; Some(x) stays the same Some(x) when pred(&x) holds and becomes None otherwise
+        v = args[0]
+        if v[0] == 'ctor' and v[1] == 'None':
+            return [Out('val', v, st)]
+        if v[0] == 'ctor' and v[1] == 'Some':
+            cases = [(v[2][0], st)]
+            outs = []
+        else:
+            kt = st.variant_test(v, 'Some', ['Some', 'None'])
+            cases, outs = [], []
+            if kt != 'no':
+                cases.append((('variant', v, 'Some', 0), st if kt == 'yes' else st.assume(('is', v, 'Some'), True)))
+            if kt != 'yes':
+                outs.append(Out('val', ('ctor', 'None', ()), st if kt == 'no' else st.assume(('is', v, 'Some'), False)))
+        for inner, s in cases:
+            for o in I.apply(args[1], [inner], node, s):
+                if o.kind != 'val':
+                    outs.append(o); continue
+                for truth, s3 in I.decide(o.val, o.st):
+                    outs.append(Out('val', v if truth else ('ctor', 'None', ()), s3))
         return outs
     if I.combinators and (is_opt or is_res) and name in ('unwrap_or', 'unwrap_or_else', 'unwrap_or_default', 'ok_or', 'ok_or_else', 'map_or', 'map_or_else') and args:
         good, bad = ('Some', 'None') if is_opt else ('Ok', 'Err')
